@@ -33,3 +33,19 @@ Definition check_ncase (c : ncase) : bool :=
   obytes_eqb (number_to_json (nc_bits c)) (nc_text c) && oN_eqb (parse_number (nc_token c)) (nc_parsed c).
 
 Definition n_mismatches (base : nat) (l : list ncase) : list nat := mismatches_from check_ncase base l.
+
+(* round trip on the model, evaluated on the same number cases: every double that the implementation read from a
+   token (nc_parsed) and every finite nc_bits, printed by number_to_json and parsed again, is the same double
+   (zero loses its sign).  This is the statement JcsProofs.num_roundtrip_statement, checked by evaluation. *)
+Definition zero_unsigned (b : N) : N := if N.eqb b 0x8000000000000000 then 0%N else b.
+
+Definition rt_ok (b : N) : bool :=
+  match number_to_json b with
+  | None => true
+  | Some s => oN_eqb (parse_number s) (Some (zero_unsigned b))
+  end.
+
+Definition check_nrt (c : ncase) : bool :=
+  rt_ok (nc_bits c) && match nc_parsed c with Some p => rt_ok p | None => true end.
+
+Definition n_rt_mismatches (base : nat) (l : list ncase) : list nat := mismatches_from check_nrt base l.
